@@ -3,7 +3,7 @@ From ZV.Common Require Import Base Run.
 From ZV.C19 Require Import Model ProofsBytes ProofsMv ProofsCrash ProofsRo ProofsRoCut ProofsHist.
 Require ZV.C03.Model ZV.C03.ModelStore ZV.C03.ModelPlain.
 From ZV.C19 Require Import ModelZo ProofsZo ProofsReplace ProofsZoCrash ModelPlainDir ProofsPlainDir ModelMvOps ProofsMvOps
-  ModelRoW ProofsRoW ModelCases.
+  ModelRoW ProofsRoW ModelMvHist ProofsMvHist ModelCases.
 Open Scope N_scope.
 
 (* a vector synced from content xs (capacity cap, arbitrary bytes in the unused capacity) reopens as exactly xs *)
@@ -424,3 +424,57 @@ Proof. exact mo_run_inv. Qed.
 Check mmio_history_inv :
   forall ops s s', mo_inv s -> mo_run s ops = Some s' -> mo_inv s'.
 Print Assumptions mmio_history_inv.
+
+(* a set_len in front of any operation sequence (never pinned: the later fsyncs are on the temporary file): the crash
+   images are the untouched disk, those of the sequence after the set_len, and those of the sequence without it *)
+Theorem crash_setlen_compose :
+  forall d p n Y d',
+    crash d (FSetLen p n :: Y) d' -> d' = d \/ crash (apply d (FSetLen p n)) Y d' \/ crash d Y d'.
+Proof. exact crash_cons_setlen. Qed.
+Check crash_setlen_compose :
+  forall d p n Y d',
+    crash d (FSetLen p n :: Y) d' -> d' = d \/ crash (apply d (FSetLen p n)) Y d' \/ crash d Y d'.
+Print Assumptions crash_setlen_compose.
+
+(* MmapVec: whole histories of syncs and resize_to_capacity units (sync, set_len, sync) over well-formed states,
+   interrupted anywhere - set_len lost or applied, any write torn, dropped or partly rolled back: the vector file
+   reopens as an error, or as the state on disk before the history, or as one of the states of the history *)
+Theorem mv_units_crash_safe :
+  forall es path tmp s0 (us : list munit) d d',
+    tmp <> path -> ms_wf es s0 -> Forall (munit_wf es) us ->
+    d path = Some (ms_image es s0) ->
+    crash d (units_ops path tmp (map (munit_unit es) us)) d' ->
+    exists f, d' path = Some f /\
+      (mv_open es f = None \/
+       exists s, (s = s0 \/ exists u, In u us /\ In s (munit_states u)) /\
+                 mv_open es f = Some (nlen (ms_content s), ms_content s)).
+Proof. exact mv_units_crash_safe_proof. Qed.
+Check mv_units_crash_safe :
+  forall es path tmp s0 (us : list munit) d d',
+    tmp <> path -> ms_wf es s0 -> Forall (munit_wf es) us ->
+    d path = Some (ms_image es s0) ->
+    crash d (units_ops path tmp (map (munit_unit es) us)) d' ->
+    exists f, d' path = Some f /\
+      (mv_open es f = None \/
+       exists s, (s = s0 \/ exists u, In u us /\ In s (munit_states u)) /\
+                 mv_open es f = Some (nlen (ms_content s), ms_content s)).
+Print Assumptions mv_units_crash_safe.
+
+(* the same with decidable hypotheses, exactly what the harness checks on every traced history (XMvUnits): the image
+   on disk before the history and every image it syncs pass img_okb *)
+Theorem mv_traced_history_crash_safe :
+  forall es path tmp img0 us d d',
+    tmp <> path -> img_okb es img0 = true -> forallb (unit_okb es) us = true ->
+    d path = Some img0 -> crash d (units_ops path tmp us) d' ->
+    exists f, d' path = Some f /\
+      (mv_open es f = None \/
+       exists img, In img (img0 :: flat_map unit_images us) /\ mv_open es f = mv_open es img /\ mv_open es img <> None).
+Proof. exact mv_traced_history_crash_safe_proof. Qed.
+Check mv_traced_history_crash_safe :
+  forall es path tmp img0 us d d',
+    tmp <> path -> img_okb es img0 = true -> forallb (unit_okb es) us = true ->
+    d path = Some img0 -> crash d (units_ops path tmp us) d' ->
+    exists f, d' path = Some f /\
+      (mv_open es f = None \/
+       exists img, In img (img0 :: flat_map unit_images us) /\ mv_open es f = mv_open es img /\ mv_open es img <> None).
+Print Assumptions mv_traced_history_crash_safe.
